@@ -28,6 +28,8 @@ inductive Exc where
   | protoInterrupt            -- HSM2ProtocolInterrupt
   | indexError | valueError | overflowError | typeError | attributeError | keyError
   | recursionError | notImplemented
+  | pinError                  -- ledger.pin.PinError
+  | exception                 -- a plain `Exception(...)`
   deriving Repr, DecidableEq, Inhabited
 
 def Exc.name : Exc → String
@@ -41,6 +43,7 @@ def Exc.name : Exc → String
   | .overflowError => "OverflowError" | .typeError => "TypeError"
   | .attributeError => "AttributeError" | .keyError => "KeyError"
   | .recursionError => "RecursionError" | .notImplemented => "NotImplementedError"
+  | .pinError => "PinError" | .exception => "Exception"
 
 /-- subclass tests used by `except` clauses -/
 def Exc.isDongleBase : Exc → Bool
@@ -52,11 +55,34 @@ inductive Ev where
   | connect (ok : Bool)
   | disconnect
   | sleep
+  /-- `open(path, "wb")` + `write(data)` of the PIN file; `ok = false` when it raised -/
+  | fileWrite (data : Bytes) (ok : Bool)
+  deriving Repr, DecidableEq, Inhabited
+
+/-- `FileBasedPin` instance state -/
+structure PinSt where
+  pin : Bytes
+  needsChange : Bool
+  changing : Bool := false
+  newPin : Option Bytes := none
+  deriving Repr, DecidableEq, Inhabited
+
+inductive Platform where
+  | ledger | sgx | tcp
   deriving Repr, DecidableEq, Inhabited
 
 structure World where
   script : List Resp
   conns : List Bool := []     -- outcomes of successive `getDongle`; exhausted ⇒ succeeds
+  /-- `HSM2ProtocolLedger._comm_issue` -/
+  commIssue : Bool := false
+  platform : Platform := .ledger
+  /-- the `pin` object handed to the protocol (`None` for the TCP manager) -/
+  pin : Option PinSt := none
+  /-- outputs of successive `generate_pin()` calls -/
+  genPins : List Bytes := []
+  /-- outcomes of successive PIN-file writes; exhausted ⇒ succeeds -/
+  fsOk : List Bool := []
   deriving Repr, Inhabited
 
 structure Res (α : Type) where
@@ -140,6 +166,7 @@ def Ev.toJson : Ev → Json
   | .connect false => .str "C0"
   | .disconnect => .str "D"
   | .sleep => .str "Z"
+  | .fileWrite d ok => .str ((if ok then "F1" else "F0") ++ Bytes.toHex d)
 
 def Ev.ofJson? : Json → Option Ev
   | .str s =>
@@ -149,6 +176,8 @@ def Ev.ofJson? : Json → Option Ev
     | ['C', '0'] => some (.connect false)
     | ['D'] => some .disconnect
     | ['Z'] => some .sleep
+    | 'F' :: '1' :: cs => (Bytes.ofHexChars cs).map fun d => Ev.fileWrite d true
+    | 'F' :: '0' :: cs => (Bytes.ofHexChars cs).map fun d => Ev.fileWrite d false
     | _ => none
   | _ => none
 
